@@ -26,7 +26,8 @@ from vf.sym.terms import Unsupported
 
 LEVEL = "other"
 EXPLANATION = ("contracts: part proved, part bounded. Proved (for all attribute strings and all values of the sanitised types): the netCDF "
-               "attribute codec never raises and is the identity on what it encoded. Bounded: whole-model round trips through "
+               "attribute codec never raises and is the identity on what it encoded; for every model and rotator class, each attribute that a fit writes and "
+               "a query method reads (e.g. the sorted flag) is part of the serialised tree. Bounded: whole-model round trips through "
                "serialize/deserialize under three codecs for every model class and structure (xarray DataTree internals are outside "
                "the deductive reach)")
 
@@ -82,7 +83,67 @@ def sym_len(x):
     return len(x)
 
 
+QUERY_METHODS = {"transform", "_transform_algorithm", "_inverse_transform_algorithm", "inverse_transform", "_post_compute", "_sort_by_variance", "components", "scores",
+                 "predict", "_predict_algorithm", "_get_components", "_get_scores"}
+FIT_METHODS = {"_fit_algorithm", "fit", "_sort_by_variance", "_post_compute"}
+
+
+def _self_attrs(fn, store):
+    import ast
+    import inspect
+    import textwrap
+    try:
+        tree = ast.parse(textwrap.dedent(inspect.getsource(fn)))
+    except (OSError, TypeError, SyntaxError):
+        return set()
+    return {n.attr for n in ast.walk(tree) if isinstance(n, ast.Attribute) and isinstance(n.value, ast.Name) and n.value.id == "self"
+            and isinstance(n.ctx, ast.Store) == store}
+
+
+def deductive_completeness(res, agg):
+    """every piece of state that a fit writes and a query method reads is part of the serialised tree (frame of serialize):
+    written / read sets from the source of the class and its bases, serialised keys from get_serialization_attrs() of a fitted instance"""
+    rng = np.random.default_rng(0)
+    X = xr.DataArray(rng.standard_normal((20, 5)), dims=("time", "x"), coords={"time": np.arange(20), "x": np.arange(5)})
+    Y = (X.isel(x=slice(0, 4)) * 0.5 + 0.1 * rng.standard_normal((20, 4))).rename(x="y")
+    S_, C_ = xeofs.single, xeofs.cross
+    def rot(cls, base):
+        return lambda: cls(n_modes=2, max_iter=5, rtol=1e9).fit(base())       # convergence is irrelevant here
+    eof = lambda: S_.EOF(n_modes=3, solver="full").fit(X, "time")
+    mca = lambda: C_.MCA(n_modes=3, use_pca=False, solver="full").fit(X, Y, "time")
+    builders = {"EOF": eof, "ComplexEOF": lambda: S_.ComplexEOF(n_modes=2, solver="full").fit(X + 1j * X.roll(time=2, roll_coords=False), "time"),
+                "HilbertEOF": lambda: S_.HilbertEOF(n_modes=2, solver="full").fit(X, "time"), "ExtendedEOF": lambda: S_.ExtendedEOF(n_modes=2, tau=1, embedding=2).fit(X, "time"),
+                "OPA": lambda: S_.OPA(n_modes=2, tau_max=2, n_pca_modes=3).fit(X, "time"), "POP": lambda: S_.POP(n_modes=2, n_pca_modes=3).fit(X, "time"),
+                "SparsePCA": lambda: S_.SparsePCA(n_modes=2, solver="full").fit(X, "time"), "EOFRotator": rot(S_.EOFRotator, eof),
+                "HilbertEOFRotator": rot(S_.HilbertEOFRotator, lambda: S_.HilbertEOF(n_modes=3, solver="full").fit(X, "time")),
+                "MCA": mca, "CPCCA": lambda: C_.CPCCA(n_modes=2, alpha=0.5, use_pca=False, solver="full").fit(X, Y, "time"),
+                "MCARotator": rot(C_.MCARotator, mca), "CPCCARotator": rot(C_.CPCCARotator, lambda: C_.CPCCA(n_modes=3, alpha=0.5, use_pca=False, solver="full").fit(X, Y, "time"))}
+    fn = "get_serialization_attrs"
+    for name, build in builders.items():
+        try:
+            with warnings.catch_warnings():
+                warnings.simplefilter("ignore")
+                m = build()
+            keys = set(m.get_serialization_attrs())
+        except Exception as e:  # noqa: BLE001
+            agg.vc(fn, "a fitted model reports what it serialises", {"status": "undecided", "residue": f"{type(e).__name__}: {e}"}, name)
+            continue
+        read, written = set(), set()
+        for attr in dir(type(m)):
+            f = getattr(type(m), attr, None)
+            f = getattr(f, "__func__", f)
+            if not callable(f):
+                continue
+            if attr in QUERY_METHODS:
+                read |= _self_attrs(f, False)
+            if attr in FIT_METHODS:
+                written |= _self_attrs(f, True)
+        lost = sorted((read & written) - keys)
+        agg.vc(fn, "every piece of state that a fit writes and a query method reads is part of the serialised tree", struct_vc(not lost, f"not serialised: {lost}"), name)
+
+
 def deductive(res, agg):
+    deductive_completeness(res, agg)
     # ---- _should_desanitize total
     fn = "_should_desanitize"
 
@@ -407,9 +468,11 @@ def replay(payload):
 
 def run(tier, seed):
     res = Result("C13")
-    res.functions = ["xeofs.utils.io:_should_desanitize", "xeofs.utils.io:_desanitize_attrs_nc", "xeofs.utils.io:_sanitize_attrs_nc"]
+    res.functions = ["xeofs.utils.io:_should_desanitize", "xeofs.utils.io:_desanitize_attrs_nc", "xeofs.utils.io:_sanitize_attrs_nc",
+                     "get_serialization_attrs of the 13 model / rotator classes (completeness against the state their fit writes and their queries read)"]
     res.assumptions = ["contract of ast.literal_eval: value for a Python literal, ValueError/SyntaxError otherwise; inverse of str() on dict/list/bool/None built from literals (checked on a generated family, not proved)",
                        "the codec is traced on a duck-typed tree exposing .subtree/.attrs/.variables (what the functions touch)",
+                       "serialisation completeness: written / read attribute sets are taken syntactically (`self.<name>` stores in fit methods, loads in query methods, over the class and its bases); state reached through other objects or written by reflection is not seen",
                        "BaseModel/Transformer/DataContainer/Preprocessor serialize-deserialize run on real xarray DataTrees: bounded only",
                        "no netCDF/zarr engine is installed: file I/O itself (save/load) is out of reach; the three codecs reproduce the attribute transformations the property names"]
     res.trusted = ["CPython on proxies", "z3/strings", "xarray DataTree for the bounded part"]
